@@ -443,6 +443,81 @@ func c08shadow(c *engine.Ctx, k *c08canary, only string) {
 	}
 }
 
+// c08alias: every function the sandbox does offer, bound by the script under the name of an outside-world primitive,
+// and then called by that name, through the quoted symbol, and through apply. What a function may do must not depend
+// on the name it is called by.
+func c08alias(c *engine.Ctx, k *c08canary, only string) {
+	var withheld []string
+	for n := range zygo.SystemFunctions() {
+		withheld = append(withheld, n)
+	}
+	sort.Strings(withheld)
+	m := k.menu()
+	vectors := []string{"(hash a:1) " + m[2], m[2], m[2] + " \"x\"", "\"x\" " + m[2], m[1], m[3], m[4], m[0]}
+	for _, config := range []string{"sandbox", "sandbox+std"} {
+		env := c08newEnv(config)
+		var offered []string
+		for _, n := range env.VerifGlobalNames() {
+			if v, ok := env.VerifGlobal(n); ok {
+				if _, isFn := v.(*zygo.SexpFunction); isFn && !strings.ContainsAny(n, "()[]{}\"' `") {
+					offered = append(offered, n)
+				}
+			}
+		}
+		env.Close()
+		for _, f := range offered {
+			w := "ALIAS|" + config + "|" + f
+			if only != "" && only != w {
+				continue
+			}
+			if only == "" && !c.Mine() {
+				continue
+			}
+			if _, blocks := c08blocking[f]; blocks {
+				continue
+			}
+			c.Begin(w)
+			env := c08newEnv(config)
+			timeouts := 0
+			for _, n := range withheld {
+				c08eval(env, "(def "+n+" "+f+")")
+				for _, v := range vectors {
+					for _, src := range []string{"(" + n + " " + v + ")", "((quote " + n + ") " + v + ")", "(apply " + n + " [" + v + "])", "(apply (quote " + n + ") [" + v + "])"} {
+						r := c08eval(env, src)
+						c.Count("alias_calls", 1)
+						c.Evals++
+						if r.timeout {
+							timeouts++
+							env = c08newEnv(config)
+							c08eval(env, "(def "+n+" "+f+")")
+							continue
+						}
+						viol := func(clause, detail string) {
+							c.Violation(clause, fmt.Sprintf("C08/alias-%s/%s/%s-as-%s", clause, config, f, n), w, detail+"\n  after (def "+n+" "+f+"): "+src)
+						}
+						if b := k.breach(); b != "" {
+							viol("outside-world-changed", b)
+							k.restore()
+						}
+						if x := c08leak(r.val); x != "" {
+							viol("leak-value", "the returned value contains "+x)
+						}
+						if _, bound := env.VerifGlobal("CANARYMARK"); bound {
+							viol("file-executed", "the canary source file was evaluated")
+							env = c08newEnv(config)
+						}
+					}
+				}
+				if timeouts > 3 {
+					break
+				}
+			}
+			env.Close()
+			c.Outcome(w)
+		}
+	}
+}
+
 func c08all(c *engine.Ctx, only string) {
 	k := c08setup()
 	defer os.RemoveAll(k.dir)
@@ -466,7 +541,7 @@ func c08all(c *engine.Ctx, only string) {
 			if strings.ContainsAny(n, "()[]{}\"' `") || n == "" {
 				continue
 			}
-			if strings.HasPrefix(only, "DYN|") || strings.HasPrefix(only, "CLI|") || strings.HasPrefix(only, "SHADOW|") {
+			if strings.HasPrefix(only, "DYN|") || strings.HasPrefix(only, "CLI|") || strings.HasPrefix(only, "SHADOW|") || strings.HasPrefix(only, "ALIAS|") {
 				break
 			}
 			if only != "" && only != config+"|"+n {
@@ -476,6 +551,9 @@ func c08all(c *engine.Ctx, only string) {
 				c08name(c, k, config, n, maxArgs)
 			}
 		}
+	}
+	if only == "" || strings.HasPrefix(only, "ALIAS|") {
+		c08alias(c, k, only)
 	}
 	if only == "" || strings.HasPrefix(only, "SHADOW|") {
 		c08shadow(c, k, only)
@@ -493,7 +571,7 @@ func init() {
 		ID:    "C08",
 		Level: "exploration",
 		Rule: "configurations {NewZlispSandbox(), sandbox + StandardSetup()} x every name bound in that interpreter (read from the interpreter itself, so an added primitive is seen) + the 24 special forms of the compiler + the setup macros x every argument vector of length 0..2 (thorough 3) over an 9-item canary menu " +
-			"(path of a canary source file, of a secret file, of a new file, a shell command writing a file, the name of a canary environment variable, a canary package file, a shell command printing the secret file, 0, a symbol) x call routes {direct, alias, apply, macro, inside a function, eval of a quoted form, infix, eval at macro-expansion time and as expectError operand (both run in a duplicate of the interpreter)}; plus every outside-world primitive of the full interpreter reached for by a name computed at run time (str2sym / eval / apply / cons, 7 routes x 9 x 3 argument vectors); plus, after the script itself has bound each of those names (as value, function, macro), 13 reach attempts in later evaluations; plus 25 forms through `zygo -sandbox -c`; " +
+			"(path of a canary source file, of a secret file, of a new file, a shell command writing a file, the name of a canary environment variable, a canary package file, a shell command printing the secret file, 0, a symbol) x call routes {direct, alias, apply, macro, inside a function, eval of a quoted form, infix, eval at macro-expansion time and as expectError operand (both run in a duplicate of the interpreter)}; plus every outside-world primitive of the full interpreter reached for by a name computed at run time (str2sym / eval / apply / cons, 7 routes x 9 x 3 argument vectors); plus, after the script itself has bound each of those names (as value, function, macro), 13 reach attempts in later evaluations; plus every function the sandbox offers bound under each of those names and called by that name / quoted symbol / apply with 8 canary vectors; plus 25 forms through `zygo -sandbox -c`; " +
 			"after every call: canary directory byte-identical, no new file, canary variable unchanged, no secret in the value or on stdout, the canary source not evaluated, process alive",
 		Assumptions:   []string{"effects other than file / process / environment / exit (e.g. network) have no canary", "calls that do not return within 4 s are counted as blocked, not judged"},
 		QuickDeadline: 170 * time.Second,
